@@ -547,15 +547,17 @@ func TestC12_NeoVM(t *testing.T) {
 	methods := r.methods(1)
 	r.useAllKnown("neo")
 	noCycleEnc := r.known[keyCycle]
-	ev.Floor("neo:reached-handler", "neo:cases", 0.35)
-	harn.Check(t, scaled(1500), 20000, neoProp(r, methods, noCycleEnc))
+	ev.Floor("neo:reached-handler", "neo:cases", 0.30)
+	ev.Floor("gen:index-hostile-only", "neo:cases", 0.08)
+	ev.Floor("gen:index-hostile:wrap-pair", "neo:cases", 0.004)
+	harn.Check(t, scaled(1500), 20000, neoProp(r, methods, noCycleEnc, r.known["equal-deep-struct-stack-overflow"]))
 }
 
-// neoProp is the property of kind (a); shared by the rapid test and the native fuzz target.
-func neoProp(r *runner, methods map[string][]string, noCycleEnc bool) func(*rapid.T) {
+// neoProp is the property of kind (a).
+func neoProp(r *runner, methods map[string][]string, noCycleEnc, noDeepEq bool) func(*rapid.T) {
 	ev := r.ev
 	return func(t *rapid.T) {
-		code, tags, excl := genProgram(t, methods, noCycleEnc)
+		code, tags, excl := genProgram(t, methods, noCycleEnc, noDeepEq)
 		for i := 0; i < excl; i++ {
 			ev.Excluded()
 		}
@@ -602,15 +604,11 @@ func neoProp(r *runner, methods map[string][]string, noCycleEnc bool) func(*rapi
 	}
 }
 
-// FuzzC12_NeoVM drives the same property with Go's coverage-guided fuzzer (thorough tier only).
-func FuzzC12_NeoVM(f *testing.F) {
-	r := newRunner(f)
-	f.Cleanup(r.close)
-	r.ev.Rule(ruleText)
-	methods := r.methods(1)
-	r.useAllKnown("neo")
-	f.Fuzz(rapid.MakeFuzz(neoProp(r, methods, r.known[keyCycle])))
-}
+// No native `go test -fuzz` target: the Go fuzz worker aborts ("deadlocked!", exit status 2) whenever
+// one input takes longer than 10 s, which a legitimate case here can do (a worker death with its
+// crash report and the restart of the child, or a heavy program on a loaded machine), and the test
+// binaries are built without coverage instrumentation, so the engine would add no guidance. The
+// thorough tier instead runs more rapid cases per shard.
 
 func shortOutcome(p *pathRes) string {
 	switch {
@@ -865,7 +863,7 @@ func TestC12_PoolIntake(t *testing.T) {
 			c = wcase{Kind: "pool", Evm: e}
 			desc = fmt.Sprintf("pool evm init=%x target=%s data=%x gas=%d gp=%d val=%d", clip(e.Init, 120), e.Target, clip(e.CallData, 40), e.Gas, e.GasPrice, e.Value)
 		} else {
-			code, _, _ := genProgram(t, methods, noCycleEnc)
+			code, _, _ := genProgram(t, methods, noCycleEnc, true)
 			c = wcase{Kind: "pool", Code: code, GasLimit: uint64(pick(t, []int{0, 19999, 20000, 100000, 1 << 62}, "poolgl")),
 				GasPrice: uint64(pick(t, []int{0, 2500, 2500, 1 << 62}, "poolgp2")), Signers: pick(t, [][]int{{1}, {1, 2}, {0}}, "poolsg")}
 			desc = fmt.Sprintf("pool neo code=%x gl=%d gp=%d sg=%v", clip(code, 200), c.GasLimit, c.GasPrice, c.Signers)
